@@ -29,6 +29,11 @@ RULE = ("histories of 1..12 (thorough ..20) requests generate(n) [n 1..200, "
         "through its returned time (part func); non-trivial = two generate "
         "requests separated by a skip, or a generate request starting at a "
         "position > 1e6; distinct = SHA-1 of the case description")
+RULE += (" Added after the white-box review: "
+         "Fd*Ts also 1e-12..1e-5, shapes like (20,4,4), the caller's "
+         "phase arrays re-used over the chunks of the module-level "
+         "function ")
+
 LEVEL_TEXT = ("Generated-input search (Hypothesis, seeded, sharded) over "
               "request histories of Jakes generators against an independent "
               "extended-precision evaluation of the sum-of-sinusoids model at "
